@@ -231,6 +231,7 @@ fn exec(m: &M, op: &COp, pin: bool, yielded: &mut Vec<(u32, u64, u32)>, closure_
                 let f = |_: &K, v: &V| {
                     calls += 1;
                     seen = format!("{} {}", v.payload, v.origin);
+                    crate::sched::user_code_yield("remapping-function");
                     Some(V::new(v.payload + 1, *o))
                 };
                 with!(|mm, g| fmt_v(mm.compute_if_present(&key, f, &g)), |p| fmt_v(p.compute_if_present(&key, f)))
@@ -246,6 +247,7 @@ fn exec(m: &M, op: &COp, pin: bool, yielded: &mut Vec<(u32, u64, u32)>, closure_
                 let f = |_: &K, v: &V| -> Option<V> {
                     calls += 1;
                     seen = format!("{} {}", v.payload, v.origin);
+                    crate::sched::user_code_yield("remapping-function");
                     None
                 };
                 with!(|mm, g| fmt_v(mm.compute_if_present(&key, f, &g)), |p| fmt_v(p.compute_if_present(&key, f)))
@@ -927,10 +929,25 @@ pub fn judge(case: &ConcCase, r: &ConcResult) -> Verdicts {
     let mut witnesses = BTreeMap::new();
     let mut lin_lines = vec![];
     if r.outcome.deadlock {
-        f.push(format!("[deadlock] no unfinished thread can take a step: {:?}", r.outcome.blocked));
+        if r.outcome.blocked.iter().any(|(_, w)| w.contains("OUTSIDE any hook")) {
+            // not a deadlock of the code: the scheduler cannot go on because a thread waits, in a lock
+            // acquisition no hook announces, for a lock held by a thread the scheduler has suspended
+            f.push(format!("[unhooked-lock] the run cannot be scheduled any further: {:?}", r.outcome.blocked));
+        } else {
+            f.push(format!("[deadlock] no unfinished thread can take a step: {:?}", r.outcome.blocked));
+        }
     }
     if r.outcome.budget_exceeded {
-        f.push(format!("[livelock] step budget exceeded ({} steps); still running: {:?}", r.outcome.steps, r.outcome.blocked));
+        let in_flight: Vec<String> = r
+            .outcome
+            .blocked
+            .iter()
+            .map(|(t, _)| {
+                let done = r.calls.iter().filter(|c| c.tid == *t).count();
+                format!("t{} inside `{}`", t, case.programs.get(*t).and_then(|p| p.get(done)).map(|o| o.text()).unwrap_or_default())
+            })
+            .collect();
+        f.push(format!("[livelock] step budget exceeded ({} steps); still running: {:?}; operations in flight: {}", r.outcome.steps, r.outcome.blocked, in_flight.join(", ")));
     }
     for t in &r.panicked {
         // the operation in flight: the first one of the thread's program that did not complete
@@ -1516,6 +1533,45 @@ pub fn gen_conc_mode(id: usize, seed: u64, tier_big: bool, mode: &str) -> ConcCa
     let mut solo_freeze: Vec<(usize, usize)> = vec![];
     let mut treecase_fi = false;
     let (programs, cap, prefill, hashes, class) = match mode {
+        "iter" if rng.chance(1, 4) => {
+            // an iterator that lives across SEVERAL doublings: it is created (and advanced by a few of
+            // its own loads), then suspended while one writer doubles the table two or three times
+            // (inserts of fresh keys and reservations) and a second one touches some old keys, then it
+            // runs on: every frame of its table stack is pushed, popped and re-used
+            let hc = *rng.pick(&["ident", "uniform", "alternate", "fewbins"]);
+            let hashes = crate::gen::gen_hashes(&mut rng, hc, 140);
+            let pre = 3 + rng.below(9) as usize;
+            let prefill: Vec<(u32, u64, u32)> = (0..pre).map(|i| ((i + 1) as u32, rng.below(5), fresh())).collect();
+            let mut programs = vec![vec![COp::Iter]];
+            let mut grow = vec![];
+            let n_new = 30 + rng.below(60) as u32;
+            for i in 0..n_new {
+                grow.push(COp::Ins(20 + i, 1, fresh()));
+                if i % 16 == 7 && rng.chance(1, 2) {
+                    grow.push(COp::Reserve(20 + rng.below(100) as usize));
+                }
+            }
+            programs.push(grow);
+            let mut touch = vec![];
+            for _ in 0..rng.below(4) {
+                let k = 1 + rng.below(pre as u64) as u32;
+                touch.push(if rng.chance(1, 2) { COp::Rm(k) } else { COp::Ins(k, rng.below(5), fresh()) });
+            }
+            if !touch.is_empty() {
+                programs.push(touch);
+            }
+            let j = rng.below(14) as usize;
+            let mut script = vec![];
+            if j > 0 {
+                script.push(ScriptStep { tid: 0, until: Until::Done { kind: Kind::Load, what: "", rel: Rel::Any, count: j } });
+            }
+            script.push(ScriptStep { tid: 1, until: Until::Finished });
+            if programs.len() > 2 {
+                script.push(ScriptStep { tid: 2, until: Until::Finished });
+            }
+            script.push(ScriptStep { tid: 0, until: Until::Finished });
+            return ConcCase { id, seed, hash_class: "iter-across-resizes", hashes, cap: 0, prefill, programs, policy: Policy::Script(script), pin: rng.chance(1, 3) };
+        }
         "iter" => {
             // one case in three: a tree bin (all-equal hashes, 128 bins, 9..12 keys), so that the
             // iterator walks `first`/`next` of a `TreeBin` while writers insert into and remove from it
